@@ -24,8 +24,8 @@ RULE = ("histories of add (single / list / fail_on_duplicate_key), remove (singl
         "re-adding held blocks, removing/replacing blocks not held and addressing the duplicate wrappers the library created; "
         "after EVERY call all views are compared (by identity) with a list+2-dict reference model; "
         "non-trivial = at least one call changes the reference model; distinct = distinct op list")
-BOUND = {"quick": "all histories of depth <= 3 over a 30-op alphabet (6 blocks) + 2000 random histories of depth 1..30 over the full op set",
-         "thorough": "all histories of depth <= 4 over the 30-op alphabet + all of depth <= 3 over a 55-op alphabet + 30000 random histories of depth 1..30"}
+BOUND = {"quick": "all histories of depth <= 3 over a 31-op alphabet (7 blocks) + all of depth <= 2 over a 56-op alphabet + 2000 random histories of depth 1..30 over the full op set",
+         "thorough": "all histories of depth <= 4 over the 31-op alphabet + all of depth <= 3 over the 56-op alphabet + 30000 random histories of depth 1..30"}
 
 U_SPEC = [
     {"t": "entry", "type": "article", "key": "k", "fields": [["title", "{A}"]], "line": 1, "raw": "@article{k, title = {A}}"},    # 0
@@ -362,9 +362,9 @@ def known_witnesses():
 
 # ------------------------------------------------------------------ generation
 W0 = ["w", 0]
-# reduced alphabet over e0(k)=0 e1(k)=1 s0(k)=3 s1(k)=4 s2(j)=5 p=6
+# reduced alphabet over e0(k)=0 e1(k)=1 e2(j)=2 s0(k)=3 s1(k)=4 s2(j)=5 p=6
 ALPHA_SMALL = [
-    ["add", 0], ["add", 1], ["add", 3], ["add", 5], ["add", 6],
+    ["add", 0], ["add", 1], ["add", 2], ["add", 3], ["add", 5], ["add", 6],
     ["add_fail", 1], ["add_fail", 4],
     ["add_list", [0, 1]], ["add_list", [3, 4, 5]],
     ["add_list_fail", [6, 1]],
@@ -375,7 +375,7 @@ ALPHA_SMALL = [
     ["replace", 0, 1, False], ["replace", 3, 5, False], ["replace", 6, 1, False], ["replace", 6, 4, False], ["replace", W0, 6, False],
 ]
 ALPHA_LARGE = ALPHA_SMALL + [
-    ["add", 4], ["add", 2], ["add", 8],
+    ["add", 4], ["add", 7], ["add", 8],
     ["add_fail", 0], ["add_fail", 3], ["add_fail", 6],
     ["add_list", [6, 0]], ["add_list", []], ["add_list_fail", [0, 1]], ["add_list_fail", [3, 5]],
     ["remove", 4], ["remove", 2],
@@ -383,7 +383,7 @@ ALPHA_LARGE = ALPHA_SMALL + [
     ["replace", 1, 0, True], ["replace", 0, 0, True], ["replace", 0, 2, True], ["replace", 2, 1, True], ["replace", 3, 6, True],
     ["replace", 1, 0, False], ["replace", 0, 6, False], ["replace", 3, 0, False], ["replace", W0, 4, False],
 ]
-assert len(ALPHA_SMALL) == 30 and len(ALPHA_LARGE) == 55
+assert len(ALPHA_SMALL) == 31 and len(ALPHA_LARGE) == 56
 
 
 def _nontrivial(ops):
@@ -458,9 +458,9 @@ def generate(tier, rng):
         for ops in itertools.product(ALPHA_SMALL, repeat=d):
             ops = list(ops)
             yield "C08.history", {"ops": ops}, _nontrivial(ops)
-    if tier != "quick":
+    if True:
         small = {repr(o) for o in ALPHA_SMALL}
-        for d in range(1, 4):
+        for d in range(1, 3 if tier == "quick" else 4):
             for ops in itertools.product(ALPHA_LARGE, repeat=d):
                 if all(repr(o) in small for o in ops):
                     continue
